@@ -8,7 +8,7 @@ import { canon } from '../runtime/canon.mjs';
 export const id = 'C03';
 
 export const HOSTS = ['boundImport', 'unbound', 'member', 'memberHtmlName', 'Teleport'];
-export const SHAPES = ['none', 'identBound', 'identUnbound', 'call', 'arrow', 'fnExpr', 'object', 'text', 'element', 'memberExpr', 'cond', 'mixed1', 'mixed2', 'spread', 'spreadCall', 'spreadThenText', 'nestedComp', 'wsOnly', 'elementWithDirective', 'elementWithVModel', 'litNull', 'litFalse', 'litZeroThenText', 'optMember', 'optMemberDeep', 'template', 'binary', 'newExpr', 'arrayLit', 'logicalOr', 'parenCall', 'awaitLike'];
+export const SHAPES = ['none', 'identBound', 'identUnbound', 'call', 'arrow', 'fnExpr', 'object', 'text', 'element', 'memberExpr', 'cond', 'mixed1', 'mixed2', 'spread', 'spreadCall', 'spreadThenText', 'nestedComp', 'wsOnly', 'elementWithDirective', 'elementWithVModel', 'litNull', 'litFalse', 'litZeroThenText', 'optMember', 'optMemberDeep', 'template', 'binary', 'newExpr', 'arrayLit', 'logicalOr', 'parenCall', 'awaitLike', 'identOwnLineLF', 'identOwnLineCR', 'callOwnLineCRLF', 'objectOwnLineCR', 'voidCall', 'voidCallThenText'];
 export const KINDS = ['vnode', 'string', 'array', 'slots', 'slotfn', 'number', 'nullish'];
 export const VSLOTS = ['absent', 'ident', 'objLit'];
 export const CONTEXTS = ['arrowExpr', 'moduleLevel', 'fnBody', 'nestedBlock', 'classMethod', 'arrowInArrow', 'arrowParamDefaultExprBody', 'arrowParamDefaultAndBody', 'fnParamDefault'];
@@ -54,6 +54,12 @@ export function makeKids(b, shape, kind, st = { n: 0 }) {
       const f = b.fnGlobal(val);
       return [{ ...C.expr(b.leaf(`${f}()`), `${f}()`), shape: 'call', fn: f }];
     }
+    case 'voidCall': { const f = b.fnGlobal(val); return [{ ...C.expr(b.leaf(`void ${f}()`), `void ${f}()`), shape: 'other' }]; }
+    case 'voidCallThenText': { const f = b.fnGlobal(val); return [{ ...C.expr(b.leaf(`void ${f}()`), `void ${f}()`), shape: 'other' }, C.text(' after')]; }
+    case 'identOwnLineLF': { const g = b.global(val, { log: false }); return [C.text('\n      '), { ...C.expr(b.leaf(g), g), shape: 'ident' }, C.text('\n    ')]; }
+    case 'identOwnLineCR': { const g = b.global(val, { log: false }); return [C.text('\r      '), { ...C.expr(b.leaf(g), g), shape: 'ident' }, C.text('\r    ')]; }
+    case 'callOwnLineCRLF': { const f = b.fnGlobal(val); return [C.text('\r\n      '), { ...C.expr(b.leaf(`${f}()`), `${f}()`), shape: 'call', fn: f }, C.text('\r\n    ')]; }
+    case 'objectOwnLineCR': { const f = b.fnGlobal({ k: 'sent' }); const src = `{ default: () => [${f}()], other: () => ["o"] }`; return [C.text('\r  '), { ...C.expr(b.leaf(`(${src})`), src), shape: 'object' }, C.text('\r')]; }
     case 'arrow': {
       const f = b.fnGlobal({ k: 'sent' });
       return [{ ...C.expr(b.leaf(`() => [${f}()]`), `() => [${f}()]`), shape: 'fn' }];
@@ -176,7 +182,7 @@ export function buildLoop(host, ctx, vs) {
 }
 
 /** an identifier child whose variable was, earlier, the target of an unrelated `x = <jsx>` assignment */
-export const PRIOR_ASSIGN = ['fnLet', 'moduleReassign', 'fnParamDefault'];
+export const PRIOR_ASSIGN = ['fnLet', 'moduleReassign', 'fnParamDefault', 'assignedVarNamedSlot'];
 export function buildPriorAssign(host, variant) {
   const b = new ModuleBuilder();
   const tag = hostTag(b, host);
@@ -185,6 +191,7 @@ export function buildPriorAssign(host, variant) {
   switch (variant) {
     case 'fnLet': b.thunks.push(`export function t0() {\n  let cur = null;\n  if (typeof t0 === "function") cur = <i id="first" />;\n  return ${J};\n}`, 'export const setCur = () => {};'); break;
     case 'moduleReassign': b.thunks.push('let cur = null;', 'cur = <i id="first" />;', `export const t0 = () => ${J};`, 'export const setCur = () => { cur = <i id="second" />; };'); break;
+    case 'assignedVarNamedSlot': { const J2 = renderElement({ tag, attrs: [], children: [{ ...C.expr(b.leaf('0'), 'mkFirst()'), shape: 'call' }] }); b.thunks.push('const mkFirst = () => <i id="first" />;', 'let _slot = null;', `export function t0() {\n  _slot = ${J2};\n  return _slot;\n}`, 'export const setCur = () => {};'); break; }
     case 'fnParamDefault': b.thunks.push(`export function t0(cur = null) {\n  cur = cur || <i id="first" />;\n  const r = ${J};\n  return r;\n}`, 'export const setCur = () => {};'); break;
     default: throw new Error(variant);
   }
@@ -224,7 +231,7 @@ function build(host, shape, kind, vs, ctx) {
   return { src: b.source(), spec: { thunks: [{ name: 't0', el }], env: b.env, ctx, shape, vs } };
 }
 
-const RUNTIME_SHAPES = new Set(['identBound', 'identUnbound', 'call', 'cond', 'mixed1', 'mixed2', 'nestedComp', 'optMemberDeep', 'newExpr', 'arrayLit', 'logicalOr', 'parenCall', 'awaitLike']);
+const RUNTIME_SHAPES = new Set(['identOwnLineLF', 'identOwnLineCR', 'callOwnLineCRLF', 'identBound', 'identUnbound', 'call', 'cond', 'mixed1', 'mixed2', 'nestedComp', 'optMemberDeep', 'newExpr', 'arrayLit', 'logicalOr', 'parenCall', 'awaitLike']);
 const OPTS = [];
 for (const enableObjectSlots of [true, false]) for (const optimize of [false, true]) OPTS.push({ enableObjectSlots, optimize });
 // configurations that leave enableObjectSlots out (it defaults to on)
